@@ -25,6 +25,11 @@ def encOpt (c : Bool) (enc : Nat → Bytes) (v : Nat) : Bytes := if c then enc v
 def decOpt (c : Bool) (dec : Bytes → Option (Nat × Bytes)) (bs : Bytes) : Option (Nat × Bytes) :=
   if c then dec bs else some (0, bs)
 
+/-- 32- or 64-bit field chosen by the box version (`'Q' if version == 1 else 'I'`) -/
+def encW (wide : Bool) (v : Nat) : Bytes := if wide then encU64 v else encU32 v
+def decW (wide : Bool) (bs : Bytes) : Option (Nat × Bytes) := if wide then decU64 bs else decU32 bs
+def wBound (wide : Bool) : Nat := if wide then 18446744073709551616 else 4294967296
+
 /-- run a prefix decoder on a whole payload: nothing may be left over -/
 def exact {α : Type} (d : Bytes → Option (α × Bytes)) (bs : Bytes) : Option α :=
   match d bs with
@@ -62,19 +67,18 @@ structure Tfdt where
 
 def Tfdt.Wf (x : Tfdt) : Prop :=
   x.version < 256 ∧ x.flags < 16777216 ∧
-  (if x.version = 1 then x.base_media_decode_time < 18446744073709551616
-   else x.base_media_decode_time < 4294967296)
+  x.base_media_decode_time < wBound (x.version == 1)
 instance (x : Tfdt) : Decidable x.Wf := by unfold Tfdt.Wf; infer_instance
 
 /-- `encode_box_fields`: 64 bit iff `version == 1` -/
 def encTfdt (x : Tfdt) : Bytes :=
   encU8 x.version ++ (encU24 x.flags ++
-    (if x.version = 1 then encU64 x.base_media_decode_time else encU32 x.base_media_decode_time))
+    encW (x.version == 1) x.base_media_decode_time)
 
 def decTfdt' (bs : Bytes) : Option (Tfdt × Bytes) := do
   let (version, bs) ← decU8 bs
   let (flags, bs) ← decU24 bs
-  let (t, bs) ← if version = 1 then decU64 bs else decU32 bs
+  let (t, bs) ← decW (version == 1) bs
   some ({ version := version, flags := flags, base_media_decode_time := t }, bs)
 
 def decTfdt : Bytes → Option Tfdt := exact decTfdt'
@@ -96,18 +100,17 @@ structure Mehd where
 
 def Mehd.Wf (x : Mehd) : Prop :=
   x.version < 256 ∧ x.flags < 16777216 ∧
-  (if x.version = 1 then x.fragment_duration < 18446744073709551616
-   else x.fragment_duration < 4294967296)
+  x.fragment_duration < wBound (x.version == 1)
 instance (x : Mehd) : Decidable x.Wf := by unfold Mehd.Wf; infer_instance
 
 def encMehd (x : Mehd) : Bytes :=
   encU8 x.version ++ (encU24 x.flags ++
-    (if x.version = 1 then encU64 x.fragment_duration else encU32 x.fragment_duration))
+    encW (x.version == 1) x.fragment_duration)
 
 def decMehd' (bs : Bytes) : Option (Mehd × Bytes) := do
   let (version, bs) ← decU8 bs
   let (flags, bs) ← decU24 bs
-  let (t, bs) ← if version = 1 then decU64 bs else decU32 bs
+  let (t, bs) ← decW (version == 1) bs
   some ({ version := version, flags := flags, fragment_duration := t }, bs)
 
 def decMehd : Bytes → Option Mehd := exact decMehd'
